@@ -101,8 +101,6 @@ Definition defs (p : pattern) : list N :=
 Definition reqA : req := mkReq PubSub true [Some 1; None; None; None; None; None; Some 2] [td_u64] [] [] [] false.
 Definition reqB : req := mkReq PubSub true [Some 2; None; None; None; None; None; Some 1] [td_u64] [] [] [] false.
 Definition reqU : req := mkReq PubSub true [None; None; None; None; None; None; None] [td_u64] [] [] [] false.
-(* publish_subscribe::<[u64]>().max_nodes(0): the slice builder does not adjust the zero *)
-Definition reqSlice0 : req := mkReq PubSub false [None; None; None; None; None; None; Some 0] [mkTd 1 1 8 8] [] [] [] false.
 Definition reqBb : req := mkReq Blackboard true [None; None] [td_u64] [] [] [] false.
 Definition P0 : params := mkP 0 defs.
 Definition P9 : params := mkP 9 defs.
@@ -137,14 +135,14 @@ Definition finished (c : cfg gst lst) (t : nat) : bool :=
   match at_pc (snd c t), prog (snd c t) with Idle, [] => true | _, _ => false end.
 Definition solo_bound (P : params) : nat := 60 * S (p_T P) * S (p_T P).
 
-(* every call returns within the budget whatever the others do (here: even if they do nothing), never by panicking *)
+(* every call returns within the budget whatever the others do (here: even if they do nothing) *)
 Definition c06_terminates_full : Prop :=
   forall P progs c t, reachable (step P) (init progs) c -> (forall t', length (progs t') <= 1)%nat ->
-    (exists k, (k <= solo_bound P)%nat /\ finished (fst (run (step P) (repeat t k) c)) t = true) /\
-    ~ In RPanic (rets (snd c t)).
+    exists k, (k <= solo_bound P)%nat /\ finished (fst (run (step P) (repeat t k) c)) t = true.
 
-(* witness 1: the creator stands between shm_open(O_CREAT|O_EXCL) and ftruncate of the dynamic config; the opener
-   (budget T = 0) retries MappingSizeIsZero for ever: open_impl has no timeout check on that branch *)
+(* witness: the creator stands between shm_open(O_CREAT|O_EXCL) and ftruncate of the dynamic config; the opener
+   (budget T = 0) retries MappingSizeIsZero for ever: open_impl has no timeout check on that branch
+   (known finding open:zero-size-dynamic-config-spins-without-timeout) *)
 Definition spin_sched : list nat := repeat 0%nat 13.
 Definition spin_cfg := fst (run (step P0) spin_sched (init (progs2 [OCreate reqA] [OOpen reqU]))).
 Lemma c06_open_spin_refuted :
@@ -152,29 +150,7 @@ Lemma c06_open_spin_refuted :
 Proof. vm_compute. reflexivity. Qed.
 Print Assumptions c06_open_spin_refuted.
 
-(* witness 2: create of a slice-payload service with max_nodes 0 panics (DynamicConfig::init) and leaves the
-   dynamic config segment behind *)
-Definition panic_sched : list nat := repeat 0%nat 20.
-Definition panic_cfg := fst (run (step P9) panic_sched (init (progs2 [OCreate reqSlice0] []))).
-Lemma c06_create_panics :
-  rets (snd panic_cfg 0%nat) = [RPanic] /\ listing (fst panic_cfg) = (0, 1, 0)%nat /\ at_pc (snd panic_cfg 0%nat) = Idle.
-Proof. vm_compute. auto. Qed.
-Print Assumptions c06_create_panics.
-
 Theorem c06_terminates_refuted : ~ c06_terminates_full.
-Proof.
-  intros H.
-  destruct (H P9 (progs2 [OCreate reqSlice0] []) panic_cfg 0%nat) as [_ Hp].
-  - unfold panic_cfg; apply reachable_run.
-  - intros [|[|t']]; cbn; auto.
-  - apply Hp. destruct c06_create_panics as (E & _). rewrite E. left; auto.
-Qed.
-Print Assumptions c06_terminates_refuted.
-
-(* the spin alone refutes the bound as well (no panic involved) *)
-Theorem c06_terminates_spin_refuted :
-  ~ (forall P progs c t, reachable (step P) (init progs) c -> (forall t', length (progs t') <= 1)%nat ->
-       exists k, (k <= solo_bound P)%nat /\ finished (fst (run (step P) (repeat t k) c)) t = true).
 Proof.
   intros H.
   destruct (H P0 (progs2 [OCreate reqA] [OOpen reqU]) spin_cfg 1%nat) as (k & Hk & Hf).
@@ -184,7 +160,14 @@ Proof.
     assert (Hin : In k (seq 0 (S (solo_bound P0)))) by (apply in_seq; lia).
     specialize (Hs k Hin). rewrite Hf in Hs. discriminate.
 Qed.
-Print Assumptions c06_terminates_spin_refuted.
+Print Assumptions c06_terminates_refuted.
+
+(* no create / open_or_create can reach the fatal_panic of DynamicConfig::init: the settings it writes never have a
+   zero container capacity, for every pattern, payload kind, defaults and requirement (after fix c6a737e the slice
+   builders adjust like the fixed-size ones; the former witness is a regression history of the check) *)
+Theorem c06_created_settings_never_panic : forall defs r k, k <> KOpen -> init_panics (mk_cfg defs r k) = false.
+Proof. exact created_settings_never_panic. Qed.
+Print Assumptions c06_created_settings_never_panic.
 
 (* what holds: the two waiting loops that DO check the budget stop there (step level):
    the static-config wait gives up after T ticks, the permission wait of the dynamic config at T ticks *)
@@ -237,16 +220,11 @@ Definition c06_lifetime_full : Prop :=
   forall P progs g ls i x, reachable (step P) (init progs) (g, ls) -> quiescent ls -> get_inst g i = Some x ->
     (i_dy_linked x = true <-> (i_locked x = false /\ i_members x <> [])).
 
-(* refuted by the panicking create: its dynamic config segment stays for ever, nobody is registered *)
-Theorem c06_lifetime_refuted : ~ c06_lifetime_full.
-Proof.
-  intros H.
-  assert (Hq : quiescent (snd panic_cfg)) by (intros [|[|t]]; vm_compute; reflexivity).
-  assert (Hr : reachable (step P9) (init (progs2 [OCreate reqSlice0] [])) (fst panic_cfg, snd panic_cfg)).
-  { unfold panic_cfg. apply reachable_run_pair. }
-  assert (Hi : exists x, get_inst (fst panic_cfg) 0%nat = Some x /\ i_dy_linked x = true /\ i_members x = []).
-  { eexists. vm_compute. repeat split. }
-  destruct Hi as (x & Hx & Hl & Hm).
-  destruct (proj1 (H _ _ _ _ _ _ Hr Hq Hx) Hl) as [_ Hne]. congruence.
-Qed.
-Print Assumptions c06_lifetime_refuted.
+(* Status: NOT refuted any more (the only witness was the dynamic config leaked by the panicking slice create,
+   repaired by c6a737e) and NOT proved.  Missing for a proof: (1) the registry/handle correspondence
+   "i_members x = the threads t with nreg (ls t) > 0 whose handles refer to i, or standing in DRmTag i / DDereg i"
+   as part of the invariant (it needs: all handles of a node refer to one instance, length handles = nreg outside
+   drop, owner-stage facts for CDyInit); (2) that CPanicRmStatic is unreachable, i.e. every instance's settings come
+   from mk_cfg with a kind <> KOpen (then c06_created_settings_never_panic applies); (3) i_dy_linked x = true exactly
+   between CDyOpen and DDyUnlink.  The G3 tie checks this clause on every history (`ls=` = linked dynamic configs
+   against the model, `end` line: nothing left) and the G2 tie on every explored interleaving (F line). *)
